@@ -37,7 +37,23 @@
              deployed and replaced, or between declared and migrated (these moves are the
              OfferInapplicable family of BlockVerify.tla: the state layer's guards must refuse
              them); nil vs empty sections.
-   su.*   the state update's own declared block hash / new root must be the block's. *)
+   su.*   the state update's own declared block hash / new root must be the block's.
+
+   Presence / value classes (MCClassFields ...).  For the fields below the representation (feeder
+   JSON / core structs) tells ABSENT from PRESENT-ZERO from NON-ZERO, and so do the preimages:
+   rb.*   S: SNIP-8 / transaction hash v3: h(tip, L1_GAS bound, L2_GAS bound [, L1_DATA bound]); a bound
+             is packed as name(60 bits) | max_amount(64) | max_price_per_unit(128) - an all-zero bound is a
+             non-zero element; the L1_DATA element belongs to the preimage of every transaction that carries
+             the bound (all transactions since 0.13.4), whatever its value.  A v3 transaction without an
+             L1_GAS or L2_GAS bound is malformed (ValidClassOf has no "absent" for them).
+          A: fixtures: 197 v3 transactions with two bounds, 100 with three (non-zero) bounds verify.
+   arrays (paymaster_data, account_deployment_data, calldata, constructor calldata, proof_facts, signature,
+          event keys / data, message payload): absent = [], zero = [0]; h([]) # h([0]) everywhere except the
+          0.13.2 / 0.13.3 transaction leaf, which hashes an empty signature as [0] (MCProtoSame).
+   felts / integers (tip, nonce, max_fee, actual fee, gas consumed, sequencer, timestamp, prices, event and
+          message addresses): zero is a value like any other.
+   rc.revert  absent = succeeded (0 is hashed), zero = reverted with the empty reason (keccak("") is hashed),
+          nonzero = reverted with a reason. *)
 EXTENDS BlockVerify
 
 Hdr == {"hdr.number", "hdr.parent_hash", "hdr.state_root", "hdr.sequencer", "hdr.timestamp",
@@ -102,6 +118,43 @@ SdMigrated == {"sd.migrated.casm_hash", "sd.migrated.add", "sd.migrated.remove"}
 
 Base == Hdr \cup Su \cup TxBlock \cup TxLevel \cup Rc \cup Ev \cup Sd
 
+--------------------------------------------------------------------------------
+(* presence / value classes: the committed fields that have the dimension, per transaction kind *)
+Cls3 == {"absent", "zero", "nonzero"}
+Cls2 == {"zero", "nonzero"}
+V3Kinds == {"invoke3", "declare3", "deployaccount3"}
+TxCls3 == UNION {P(k, {"rb.l1_gas", "rb.l2_gas", "rb.l1_data_gas", "paymaster_data"}) : k \in V3Kinds}
+          \cup P("invoke3", {"account_deployment_data", "calldata", "proof_facts"})
+          \cup P("declare3", {"account_deployment_data"})
+          \cup P("deployaccount3", {"ctor_calldata"})
+          \cup P("invoke0", {"calldata"}) \cup P("invoke1", {"calldata"}) \cup P("deployaccount1", {"ctor_calldata"})
+TxCls2 == UNION {P(k, {"tip", "nonce"}) : k \in V3Kinds}
+          \cup P("invoke0", {"max_fee"}) \cup P("invoke1", {"max_fee", "nonce"})
+          \cup P("declare1", {"max_fee", "nonce"}) \cup P("declare2", {"max_fee", "nonce"})
+          \cup P("deployaccount1", {"max_fee", "nonce"}) \cup P("l1handler", {"nonce"})
+SigCls == {"tx." \o k \o ".signature" : k \in SigKinds}
+BlkCls3 == SigCls \cup {"rc.revert", "ev.keys", "ev.data", "msg.payload"}
+HdrCls == {"hdr.sequencer", "hdr.timestamp", "hdr.l1_gas_price_wei", "hdr.l1_gas_price_fri",
+           "hdr.l1_data_gas_price_wei", "hdr.l1_data_gas_price_fri"}
+RcCls2 == {"rc.fee", "rc.l1_gas_consumed", "rc.l1_data_gas_consumed"}
+EvMsgCls2 == {"ev.from", "msg.from", "msg.to"}
+BlkCls2 == RcCls2 \cup EvMsgCls2 \cup HdrCls \cup HdrL2
+
+MCTxClassFields == TxCls3 \cup TxCls2
+MCClassFields == MCTxClassFields \cup BlkCls3 \cup BlkCls2
+MCClassOf == [f \in MCClassFields |-> IF f \in TxCls3 \cup BlkCls3 THEN Cls3 ELSE Cls2]
+(* a v3 transaction always has an L1_GAS and an L2_GAS bound *)
+MandatoryBounds == UNION {P(k, {"rb.l1_gas", "rb.l2_gas"}) : k \in V3Kinds}
+MCValidClassOf == [f \in MCClassFields |-> IF f \in MandatoryBounds THEN Cls2 ELSE MCClassOf[f]]
+MCClassIn ==
+  [v \in {"0.13.2", "0.13.4", "0.14.0", "0.14.1"} |->
+     CASE v = "0.13.2" -> MCClassFields \ (HdrL2 \cup TxProofFacts)
+       [] v = "0.13.4" -> MCClassFields \ TxProofFacts
+       [] v = "0.14.0" -> MCClassFields \ TxProofFacts
+       [] v = "0.14.1" -> MCClassFields]
+(* 0.13.2: the transaction leaf hashes an empty signature as [0] *)
+MCProtoSame == [v \in {"0.13.2", "0.13.4", "0.14.0", "0.14.1"} |-> IF v = "0.13.2" THEN SigCls ELSE {}]
+
 MCVersions == <<"0.13.2", "0.13.4", "0.14.0", "0.14.1">>
 MCCommitted ==
   [v \in {"0.13.2", "0.13.4", "0.14.0", "0.14.1"} |->
@@ -117,14 +170,43 @@ MCSuFields == Su
    transaction kind but not one state-diff entry (only the .add alterations apply to its diff).
    "empty" has neither transactions nor diff entries.  "bare" has an invoke v3 and an L1 handler
    transaction without events, messages or reverts, and a diff that only deploys one contract
-   (no classes). *)
+   (no classes).  "zero" and "void" are the two shapes of the class dimension: the transactions,
+   receipts, events and messages of "full" over an empty diff, with EVERY class field present-zero
+   ("zero": tip 0, (0,0) bounds, [0] arrays, nonce / fee / prices / timestamp 0, reverted with the
+   empty reason ...) resp. absent where a valid block can leave it out and non-zero elsewhere ("void":
+   two-bound v3 transactions, empty arrays, no revert).  Their hashes are the REFERENCE's. *)
 SdAdds == {"sd.storage.add", "sd.nonce.add", "sd.deployed.add", "sd.declared_v0.add",
            "sd.declared_v1.add", "sd.replaced.add", "sd.migrated.add"}
 All == Base \cup HdrL2 \cup SdMigrated \cup TxProofFacts
-MCShapes == {"full", "emptydiff", "empty", "bare"}
+(* value alterations that have a target in the class shapes: a zero is a value like any other, so every
+   field of a block whose fields are all zero can be bumped - and must be: a hash function that stops
+   looking at a transaction once some field is zero (an L1 handler with nonce 0 taken for one without
+   nonce) accepts them.  Not offered: what needs two DISTINCT events / messages in one receipt or a
+   receipt that did not revert ("zero": all alike, all reverted), what needs an element to alter
+   ("void": empty arrays, no l1_data_gas bound), and dropping the single 0 of a signature, which the
+   0.13.2 transaction leaf does not tell from the empty signature. *)
+SigDrops == {"tx." \o k \o ".signature.drop" : k \in SigKinds}
+SigElems == {"tx." \o k \o ".signature.elem" : k \in SigKinds}
+ClsArrayElems == {"tx.invoke0.calldata.elem", "tx.invoke1.calldata.elem", "tx.invoke3.calldata.elem",
+                  "tx.deployaccount1.ctor_calldata.elem", "tx.deployaccount3.ctor_calldata.elem"}
+RbDataAlters == UNION {P(k, {"rb.l1_data_gas.max_amount", "rb.l1_data_gas.max_price", "rb.l1_data_gas.drop"}) : k \in V3Kinds}
+ClsShapeCommon == Hdr \cup HdrL2 \cup Su \cup SdAdds \cup TxLevel \cup TxProofFacts \cup (TxBlock \ SigDrops)
+                  \cup {"rc.fee", "rc.tx_hash", "rc.l1_gas_consumed", "rc.l1_data_gas_consumed",
+                        "msg.from", "msg.to", "msg.payload.append", "msg.add", "msg.remove", "msg.move", "ev.add"}
+ZeroTargets == ClsShapeCommon
+               \cup {"rc.execution_status.unrevert", "rc.revert_reason", "msg.payload.elem", "msg.payload.drop",
+                     "ev.from", "ev.key.elem", "ev.key.append", "ev.key.drop", "ev.data.elem", "ev.data.append",
+                     "ev.data.drop", "ev.key_to_data", "ev.remove", "ev.move"}
+VoidTargets == (ClsShapeCommon \ (ClsArrayElems \cup RbDataAlters \cup SigElems))
+               \cup {"rc.execution_status.revert", "msg.reorder", "ev.reorder"}
+MCShapes == {"full", "emptydiff", "empty", "bare", "zero", "void"}
+MCShapesFour == {"full", "emptydiff", "empty", "bare"}
+MCShapesCls == {"full", "zero", "void"}
 MCTargets ==
   [s \in MCShapes |->
-     CASE s = "full" -> All
+     CASE s = "zero" -> ZeroTargets
+       [] s = "void" -> VoidTargets
+       [] s = "full" -> All
        [] s = "emptydiff" -> All \ ((Sd \cup SdMigrated) \ SdAdds)
        [] s = "empty" -> Hdr \cup HdrL2 \cup Su \cup SdAdds
        [] s = "bare" -> Hdr \cup HdrL2 \cup Su \cup SdAdds \cup TxInvoke3 \cup TxL1Handler \cup TxProofFacts
@@ -136,9 +218,30 @@ MCTargets ==
                               "rc.l1_gas_consumed", "rc.l1_data_gas_consumed", "msg.add", "ev.add",
                               "sd.deployed.class_hash", "sd.deployed.addr", "sd.deployed.remove"}]
 MCShapesTwo == {"full", "emptydiff"}
-MCEmptyDiffShapes == {"emptydiff", "empty"}
+MCEmptyDiffShapes == {"emptydiff", "empty", "zero", "void"}
 MCClassShapes == {"full"}
 MCDeployShapes == {"full", "bare"}      \* "full" deploys two contracts, "bare" one (nonce 0, no storage)
+
+(* which class fields have a carrier in a block of each shape, and the class the builder gives them *)
+BareCarried == P("invoke3", {"rb.l1_gas", "rb.l2_gas", "rb.l1_data_gas", "paymaster_data", "account_deployment_data",
+                             "calldata", "proof_facts", "tip", "nonce"})
+               \cup {"tx.invoke3.signature", "tx.l1handler.nonce"} \cup RcCls2 \cup {"rc.revert"} \cup HdrCls \cup HdrL2
+MCCarried == [s \in MCShapes |->
+                CASE s = "empty" -> HdrCls \cup HdrL2
+                  [] s = "bare" -> BareCarried
+                  [] OTHER -> MCClassFields]
+MCShapeClass ==
+  [s \in MCShapes |-> [f \in MCClassFields |->
+     IF f \notin MCCarried[s] THEN "none"
+     ELSE CASE s = "zero" -> "zero"
+            [] s = "void" -> IF "absent" \in MCValidClassOf[f] THEN "absent" ELSE "nonzero"
+            [] OTHER -> IF f = "rc.revert" /\ s # "emptydiff" THEN "absent" ELSE "nonzero"]]
+                        \* (the first receipt is a success, in "emptydiff" blocks a revert with a reason)
+(* mutants of the hash functions: present-zero hashed like absent *)
+MCZeroBoundDropped == UNION {P(k, {"rb.l1_data_gas"}) : k \in V3Kinds}     \* "an all-zero l1_data_gas bound counts as absent"
+MCZeroTipSkipped == UNION {P(k, {"tip"}) : k \in V3Kinds}                 \* "tip 0 is not hashed"
+MCEmptyReasonAsSuccess == {"rc.revert"}                                   \* "an empty revert reason hashes as 0"
+MCNone == {}
 
 (* older formats: used only for the repository's real fixture chains (no synthetic builder).
    post-0.7 Pedersen hash: number, state root, sequencer, timestamp, tx count, tx commitment
